@@ -30,6 +30,14 @@ pub enum Profile {
     Related,
     /// mutate-message tracking on, small messages, loss heavy (C12 end to end)
     Tracked,
+    /// one tick's mutations split into several messages that are delivered / lost individually
+    Split,
+    /// few slots, few component kinds, many frames without a tick: operations collide on the same entity
+    Tight,
+    /// loss-heavy histories with frequent disconnects / reconnects / restarts
+    Sessions,
+    /// events with three clients whose update progress differs
+    Events3,
 }
 
 impl Profile {
@@ -46,6 +54,10 @@ impl Profile {
             Profile::Auth => "auth",
             Profile::Related => "related",
             Profile::Tracked => "tracked",
+            Profile::Split => "split",
+            Profile::Tight => "tight",
+            Profile::Sessions => "sessions",
+            Profile::Events3 => "events3",
         }
     }
     pub fn from_name(s: &str) -> Option<Self> {
@@ -61,6 +73,10 @@ impl Profile {
             Profile::Auth,
             Profile::Related,
             Profile::Tracked,
+            Profile::Split,
+            Profile::Tight,
+            Profile::Sessions,
+            Profile::Events3,
         ]
         .into_iter()
         .find(|p| p.name() == s)
@@ -152,6 +168,40 @@ pub fn cfg_strategy(p: Profile, thorough: bool) -> BoxedStrategy<Cfg> {
                     .prop_map(move |(a, m, v)| Cfg { auth: a, mismatch: if a != 0 { m & 0b101 } else { 0 }, vis: v, ..c.clone() })
                     .boxed()
             }
+            Profile::Split => {
+                c.big = true;
+                c.policy = 0;
+                c.max_size = vec![60, if b1 { 60 } else { 200 }, 60];
+                c.track = b2 && b3;
+                c.children = b3;
+                c.sync = b3;
+                c.vis = 0;
+                c.clients = c.clients.min(2);
+                Just(c).boxed()
+            }
+            Profile::Tight => {
+                c.policy = 0;
+                c.slots = 3;
+                c.refs = b1;
+                c.clients = c.clients.min(2);
+                prop_oneof![3 => Just(0u8), 1 => Just(1u8)].prop_map(move |v| Cfg { vis: v, ..c.clone() }).boxed()
+            }
+            Profile::Sessions => {
+                c.faults = true;
+                c.policy = 0;
+                c.big = b1;
+                c.events = b2;
+                c.track = b3 && b1;
+                c.clients = c.clients.min(2);
+                c.vis = 0;
+                Just(c).boxed()
+            }
+            Profile::Events3 => {
+                c.events = true;
+                c.clients = 3;
+                c.policy = 0;
+                prop_oneof![1 => Just(0u8), 2 => Just(2u8), 1 => Just(1u8)].prop_map(move |v| Cfg { vis: v, ..c.clone() }).boxed()
+            }
             Profile::Tracked => {
                 c.track = true;
                 c.big = true;
@@ -179,8 +229,16 @@ pub fn cfg_strategy(p: Profile, thorough: bool) -> BoxedStrategy<Cfg> {
 pub fn step_strategy(cfg: &Cfg, p: Profile) -> BoxedStrategy<Step> {
     let slots = cfg.slots;
     let clients = cfg.clients;
-    let lossy = matches!(p, Profile::Lossy | Profile::Tracked);
-    let structural = matches!(p, Profile::Structural);
+    let lossy = matches!(p, Profile::Lossy | Profile::Tracked | Profile::Split | Profile::Sessions);
+    let structural = matches!(p, Profile::Structural | Profile::Tight);
+    let split = matches!(p, Profile::Split);
+    let tight = matches!(p, Profile::Tight);
+    let sessions = matches!(p, Profile::Sessions);
+    let kinds: Vec<K> = if tight { vec![K::A, K::B, K::S] } else if split { vec![K::A, K::C, K::C] } else { KS.to_vec() };
+    let k_strategy = move || {
+        let kinds = kinds.clone();
+        (0..kinds.len()).prop_map(move |i| kinds[i])
+    };
     let w = |on: bool, w: u32| if on { w } else { 0 };
     let mut v: Vec<(u32, BoxedStrategy<Step>)> = vec![
         (4, (0..slots, proptest::collection::vec(k_strategy(), 0..4)).prop_map(|(slot, comps)| Step::Spawn { slot, marked: true, comps }).boxed()),
@@ -189,8 +247,14 @@ pub fn step_strategy(cfg: &Cfg, p: Profile) -> BoxedStrategy<Step> {
         (2, (0..slots, any::<bool>()).prop_map(|(slot, on)| Step::Marker { slot, on }).boxed()),
         (if structural { 8 } else { 4 }, (0..slots, k_strategy()).prop_map(|(slot, k)| Step::Insert { slot, k }).boxed()),
         (if structural { 8 } else { 4 }, (0..slots, k_strategy()).prop_map(|(slot, k)| Step::Remove { slot, k }).boxed()),
-        (if lossy { 12 } else { 8 }, (0..slots, k_strategy()).prop_map(|(slot, k)| Step::Mutate { slot, k }).boxed()),
-        (if cfg.policy == 0 { 10 } else { 6 }, prop_oneof![2 => Just(true), 1 => Just(false)].prop_map(|tick| Step::ServerFrame { tick }).boxed()),
+        (if split { 16 } else if lossy { 12 } else { 8 }, (0..slots, k_strategy()).prop_map(|(slot, k)| Step::Mutate { slot, k }).boxed()),
+        (if split { 4 } else { 0 }, (0..slots, 0u16..48).prop_map(|(slot, len)| Step::Resize { slot, len }).boxed()),
+        (
+            if cfg.policy == 0 { 10 } else { 6 },
+            if tight { prop_oneof![1 => Just(true), 1 => Just(false)].boxed() } else { prop_oneof![2 => Just(true), 1 => Just(false)].boxed() }
+                .prop_map(|tick| Step::ServerFrame { tick })
+                .boxed(),
+        ),
         (8, (0..clients).prop_map(|client| Step::ClientFrame { client }).boxed()),
         (6, (0..clients, 1..3usize).prop_map(|(client, n)| Step::DeliverUpd { client, n }).boxed()),
         (8, (0..clients, any::<u16>()).prop_map(|(client, idx)| Step::DeliverMut { client, idx }).boxed()),
@@ -211,14 +275,16 @@ pub fn step_strategy(cfg: &Cfg, p: Profile) -> BoxedStrategy<Step> {
         w(cfg.prespawn, 4),
         (0..clients, 0..slots, proptest::bool::weighted(0.2), any::<bool>()).prop_map(|(client, slot, kill, gap)| Step::PreSpawn { client, slot, kill, gap }).boxed(),
     ));
-    v.push((w(cfg.faults, 1), (0..clients).prop_map(|client| Step::Disconnect { client }).boxed()));
-    v.push((w(cfg.faults, 1), prop_oneof![2 => Just(Step::ServerRestart), 1 => Just(Step::ServerStop), 2 => Just(Step::ServerStart)].boxed()));
+    v.push((w(cfg.faults, if sessions { 4 } else { 1 }), (0..clients).prop_map(|client| Step::Disconnect { client }).boxed()));
+    v.push((w(sessions, 4), (0..clients).prop_map(|client| Step::Connect { client }).boxed()));
+    v.push((w(cfg.faults, 2), prop_oneof![2 => Just(Step::ServerRestart), 2 => Just(Step::ServerStop), 3 => Just(Step::ServerStart)].boxed()));
     v.push((w(cfg.auth == 1, 3), (0..clients).prop_map(|client| Step::Authorize { client }).boxed()));
     v.push((
         w(lossy, 1),
         (0..clients, proptest::collection::vec(any::<u8>(), 0..6)).prop_map(|(client, bytes)| Step::JunkAck { client, bytes }).boxed(),
     ));
     if cfg.events {
+        let _ = matches!(p, Profile::Events3);
         v.push((8, (sk(), 0u8..3, 0..clients, 0..slots).prop_map(|(kind, mode, target, refslot)| Step::EmitS { kind, mode, target, refslot }).boxed()));
         v.push((5, (0..clients, ck(), 0..slots).prop_map(|(client, kind, refslot)| Step::EmitC { client, kind, refslot }).boxed()));
         v.push((10, (0..clients, any::<u16>(), any::<u16>()).prop_map(|(client, chan, idx)| Step::DeliverSEv { client, chan, idx }).boxed()));
